@@ -133,6 +133,9 @@ def run(module, *, constants=None, defs=None, init="Init", next="Next", spec=Non
             fh.write("\n".join(cfg) + "\n")
 
         cmd = ["java", "-XX:+UseParallelGC", "-Xmx" + heap, "-Xss16m"]      # deep TLC recursion (N >= 20) overflows the default 1 MB thread stack
+        jtmp = os.path.join(scratch, "jtmp")          # TLC leaves an empty tlc-* directory per run in java.io.tmpdir
+        os.makedirs(jtmp, exist_ok=True)
+        cmd.append("-Djava.io.tmpdir=" + jtmp)
         if depth_first:
             cmd.append("-Dtlc2.tool.queue.IStateQueue=StateDeque")
         cmd += ["-cp", JAR + ":" + DEPS, "tlc2.TLC",
